@@ -5,18 +5,7 @@ from pathlib import Path
 
 ROOT = Path(__file__).resolve().parent.parent
 
-CHECKS = {
-    "C08": dict(
-        text="Refinement theorems in Lean 4 about a model of the COO shape operations (reshape_get: every result element of "
-             "reshape reads the operand element with the same row-major linear location, for all shapes/ranks/patterns/fills; "
-             "the `sorted=True` promise is justified), tied to the code by a representation-level correspondence check "
-             "(coords order, data, shape, fill) and by Gen.normalizeAxisInt regenerated from the source; leg C compares every "
-             "shape function on COO and GCXS with NumPy to find failing inputs.",
-        note="Lean kernel + propext/Classical.choice/Quot.sound; hand model tied by differential correspondence (bounded by the generator); "
-             "NumPy is the reference; dtypes/floats outside the theorems.",
-        technique="Lean 4 refinement proof over a hand model + representation-level correspondence + translator (py2lean)",
-        ref="§7 C08"),
-}
+CHECKS = {p.stem: json.loads(p.read_text()) for p in sorted((ROOT / "checks.d").glob("C*.json"))}
 
 NOT_YET = {
 }
